@@ -1,59 +1,95 @@
 import HH.Intrin.X86
 import HH.Portable
-import Std.Tactic.BVDecide
+import Mathlib.Tactic.IntervalCases
 /-!
 # Lane-level lemmas about the modelled x86 intrinsics (used by the SSE/AVX refinement proofs)
+
+All proofs are bit-by-bit in the kernel (`ext` + `getElem` lemmas + `interval_cases`): no SAT solver,
+no axioms beyond `propext`, `Classical.choice`, `Quot.sound`.
 -/
 namespace HH
+
+/-- closed bit-vector identities (shuffles, extractions, shifts by literals): compare bit `i` of both sides
+for each of the `w` positions -/
+macro "bv_bits" : tactic => `(tactic| (
+  ext i hi
+  simp only [BitVec.getElem_append, BitVec.getElem_extractLsb', BitVec.getLsbD_extractLsb', BitVec.getElem_rotateLeft,
+    BitVec.getElem_setWidth, BitVec.getLsbD_ushiftRight, BitVec.getLsbD_append, BitVec.getLsbD_rotateLeft, BitVec.getLsbD_setWidth,
+    BitVec.getElem_or, BitVec.getElem_and, BitVec.getElem_xor, BitVec.getElem_ushiftRight, BitVec.getElem_shiftLeft,
+    BitVec.getLsbD_or, BitVec.getLsbD_and, BitVec.getLsbD_xor, BitVec.getLsbD_shiftLeft, BitVec.getLsbD_ofNat,
+    BitVec.getElem_not, BitVec.getLsbD_not, BitVec.getElem_zero, BitVec.getLsbD_zero]
+  interval_cases i <;> simp [Nat.testBit, Nat.shiftRight_eq_div_pow]))
+
 namespace X86
 
-@[simp] theorem lo64_mk (h l : BitVec 64) : lo64 (mk h l) = l := by unfold lo64 mk; bv_decide
-@[simp] theorem hi64_mk (h l : BitVec 64) : hi64 (mk h l) = h := by unfold hi64 mk; bv_decide
-theorem mk_lo_hi (r : BitVec 128) : mk (hi64 r) (lo64 r) = r := by unfold lo64 hi64 mk; bv_decide
+@[simp] theorem lo64_mk (h l : BitVec 64) : lo64 (mk h l) = l := by
+  unfold lo64 mk; exact BitVec.setWidth_append_eq_right
+@[simp] theorem hi64_mk (h l : BitVec 64) : hi64 (mk h l) = h := by
+  unfold hi64 mk
+  ext i hi
+  simp only [BitVec.getElem_setWidth, BitVec.getLsbD_ushiftRight, BitVec.getLsbD_append]
+  have : ¬ (64 + i < 64) := by omega
+  simp [this, BitVec.getLsbD_eq_getElem hi]
+theorem mk_lo_hi (r : BitVec 128) : mk (hi64 r) (lo64 r) = r := by
+  unfold lo64 hi64 mk
+  ext i hi
+  simp only [BitVec.getElem_append, BitVec.getElem_setWidth, BitVec.getLsbD_ushiftRight]
+  by_cases h : i < 64
+  · simp [h, BitVec.getLsbD_eq_getElem hi]
+  · have : 64 + (i - 64) = i := by omega
+    simp [h, this, BitVec.getLsbD_eq_getElem hi]
 theorem ext128 (a b : BitVec 128) (h1 : lo64 a = lo64 b) (h2 : hi64 a = hi64 b) : a = b := by
   rw [← mk_lo_hi a, ← mk_lo_hi b, h1, h2]
 
 @[simp] theorem lo64_xor (a b : BitVec 128) : lo64 (xor_si128 a b) = lo64 a ^^^ lo64 b := by
-  unfold lo64 xor_si128; bv_decide
+  unfold lo64 xor_si128; ext i hi; simp
 @[simp] theorem hi64_xor (a b : BitVec 128) : hi64 (xor_si128 a b) = hi64 a ^^^ hi64 b := by
-  unfold hi64 xor_si128; bv_decide
+  unfold hi64 xor_si128; ext i hi; simp
 @[simp] theorem lo64_or (a b : BitVec 128) : lo64 (or_si128 a b) = lo64 a ||| lo64 b := by
-  unfold lo64 or_si128; bv_decide
+  unfold lo64 or_si128; ext i hi; simp
 @[simp] theorem hi64_or (a b : BitVec 128) : hi64 (or_si128 a b) = hi64 a ||| hi64 b := by
-  unfold hi64 or_si128; bv_decide
+  unfold hi64 or_si128; ext i hi; simp
 @[simp] theorem lo64_add (a b : BitVec 128) : lo64 (add_epi64 a b) = lo64 a + lo64 b := by simp [add_epi64]
 @[simp] theorem hi64_add (a b : BitVec 128) : hi64 (add_epi64 a b) = hi64 a + hi64 b := by simp [add_epi64]
 @[simp] theorem lo64_set (e1 e0 : BitVec 64) : lo64 (set_epi64x e1 e0) = e0 := by simp [set_epi64x]
 @[simp] theorem hi64_set (e1 e0 : BitVec 64) : hi64 (set_epi64x e1 e0) = e1 := by simp [set_epi64x]
 
-/-- `_mm_mul_epu32(a, rotate_by_32(b))` and `_mm_mul_epu32(a, b >> 32)` are both the portable
-`(a & 0xffffffff) * (b >> 32)` on each 64-bit lane -/
-theorem mul_epu32_rot (a b : BitVec 128) :
-    mul_epu32 a (shuffle_epi32 b 177) = mk (P.mul32 (hi64 a) (hi64 b)) (P.mul32 (lo64 a) (lo64 b)) := by
-  unfold mul_epu32 shuffle_epi32 P.mul32 lane32 mk32 mk lo64 hi64
-  simp
-  bv_decide
+/-- the low 32 bits of a lane, zero-extended = mask -/
+theorem low32_eq_mask (a : BitVec 64) : (a.setWidth 32).setWidth 64 = a &&& 0xffffffff#64 := by bv_bits
 
-theorem mul_epu32_srli (a b : BitVec 128) :
-    mul_epu32 a (srli_epi64 b 32) = mk (P.mul32 (hi64 a) (hi64 b)) (P.mul32 (lo64 a) (lo64 b)) := by
-  unfold mul_epu32 srli_epi64 P.mul32 mk lo64 hi64
-  simp
-  bv_decide
-
-/-- `pshufb` with the zipper-merge control = the portable mask-and-shift formulas -/
-theorem zipper_shuffle (v : BitVec 128) :
-    shuffle_epi8 v (set_epi64x 0x070806090D0A040B#64 0x000F010E05020C03#64)
-      = mk (P.zipHi (hi64 v) (lo64 v)) (P.zipLo (hi64 v) (lo64 v)) := by
-  unfold shuffle_epi8 pshufbByte byteAt set_epi64x mk P.zipHi P.zipLo lo64 hi64
-  simp
-  bv_decide
-
+set_option maxRecDepth 20000 in
 /-- `rotate_by_32`: swap the 32-bit halves of each 64-bit lane -/
 theorem shuffle_epi32_rot (v : BitVec 128) :
     shuffle_epi32 v 177 = mk ((hi64 v).rotateLeft 32) ((lo64 v).rotateLeft 32) := by
   unfold shuffle_epi32 lane32 mk32 mk lo64 hi64
-  simp
-  bv_decide
+  bv_bits
+
+theorem rot32_low (b : BitVec 64) : (b.rotateLeft 32) &&& 0xffffffff#64 = b >>> 32 := by bv_bits
+theorem shr32_low (b : BitVec 64) : (b >>> 32) &&& 0xffffffff#64 = b >>> 32 := by bv_bits
+
+/-- `_mm_mul_epu32(a, rotate_by_32(b))` and `_mm_mul_epu32(a, b >> 32)` are both the portable
+`(a & 0xffffffff) * (b >> 32)` on each 64-bit lane -/
+theorem mul_epu32_rot (a b : BitVec 128) :
+    mul_epu32 a (shuffle_epi32 b 177) = mk (P.mul32 (hi64 a) (hi64 b)) (P.mul32 (lo64 a) (lo64 b)) := by
+  rw [shuffle_epi32_rot]
+  simp only [mul_epu32, P.mul32, lo64_mk, hi64_mk, low32_eq_mask, rot32_low]
+
+theorem mul_epu32_srli (a b : BitVec 128) :
+    mul_epu32 a (srli_epi64 b 32) = mk (P.mul32 (hi64 a) (hi64 b)) (P.mul32 (lo64 a) (lo64 b)) := by
+  have : srli_epi64 b 32 = mk (hi64 b >>> 32) (lo64 b >>> 32) := by simp [srli_epi64]
+  rw [this]
+  simp only [mul_epu32, P.mul32, lo64_mk, hi64_mk, low32_eq_mask, shr32_low]
+
+set_option maxRecDepth 100000 in
+set_option maxHeartbeats 2000000 in
+/-- `pshufb` with the zipper-merge control = the portable mask-and-shift formulas -/
+theorem zipper_shuffle (v : BitVec 128) :
+    shuffle_epi8 v (set_epi64x 0x070806090D0A040B#64 0x000F010E05020C03#64)
+      = mk (P.zipHi (hi64 v) (lo64 v)) (P.zipLo (hi64 v) (lo64 v)) := by
+  simp only [shuffle_epi8, pshufbByte, byteAt, set_epi64x, mk, BitVec.reduceAppend, BitVec.reduceExtractLsb', BitVec.reduceGetLsb,
+    BitVec.reduceToNat, Nat.reduceMod, Nat.reduceMul, Bool.false_eq_true, ↓reduceIte]
+  unfold P.zipHi P.zipLo lo64 hi64
+  bv_bits
 
 end X86
 end HH
